@@ -517,6 +517,13 @@ asn1c_lang_C_type_SEQUENCE_def(arg_t *arg, asn1c_ioc_table_and_objset_t *opt_ioc
 		elements = 0;
 		roms_count = 0;
 		aoms_count = 0;
+		/* "SEQUENCE { ... }" has no components but is extensible */
+		TQ_FOR(v, &(expr->members), next) {
+			if(v->expr_type == A1TC_EXTENSIBLE) {
+				first_extension = 0;
+				break;
+			}
+		}
 	}
 
 	/*
